@@ -4,13 +4,4 @@ import "strings"
 
 func equalFold(a, b string) bool { return strings.EqualFold(a, b) }
 
-func spdxFlow(c *Ctx, prop string) {}
-
 func selfTest(c *Ctx, repo, verif string, extra map[string]any) {}
-
-func cdxFlow(c *Ctx)                      {}
-func cdxTreeAssembly(c *Ctx, prop string) {}
-
-func diffHelpers(c *Ctx) {}
-
-func geometricAccumulation(c *Ctx, ds []*declInfo) {}
